@@ -459,7 +459,7 @@ Theorem changed_input_fails_and_drains w r t ok :
   c_state w' = SS_FAILED /\ c_deferred w' = false /\ draining w' = true /\ c_run w' = None /\
   bk w' = bstep (bk w) (BStop (c_id w) t false).
 Proof.
-  intros Hrun Hch. unfold do_end, do_end_gen. rewrite Hrun. cbv zeta.
+  intros Hrun Hch. unfold do_end, do_end_gen, do_end_core. rewrite Hrun. cbv zeta.
   rewrite (nonempty_true _ Hch). rewrite classify_unexpected. cbv iota beta.
   rewrite mark_completed_fail. cbn. rewrite orb_true_r. repeat split; reflexivity.
 Qed.
@@ -597,7 +597,7 @@ Proof.
   intros Hrun Hd. destruct (changed_inputs w) as [|x l] eqn:Hch.
   - assert (Hd' : r_unavail r || (r_unfresh r || (exec_flags_inputs_not_final && flagged w r)) = true).
     { apply orb_true_iff in Hd as [H|H]; rewrite H; rewrite ?orb_true_r; reflexivity. }
-    unfold do_end, do_end_gen. rewrite Hrun. cbv zeta. rewrite Hch. cbn [nonempty negb].
+    unfold do_end, do_end_gen, do_end_core. rewrite Hrun. cbv zeta. rewrite Hch. cbn [nonempty negb].
     rewrite (classify_defer _ _ _ _ Hd'). cbv iota beta. rewrite mark_completed_defer.
     destruct (N.leb_spec (c_dc w + 1) (cap w)) as [Hle|Hgt]; cbn.
     + split; [discriminate|]. split; [|reflexivity]. intros _. split; [intros _; split; reflexivity|lia].
@@ -773,11 +773,11 @@ Proof.
   { destruct (do_end_deferring w r t ok Hrun Hfl) as [Hns _]. cbv zeta in Hns. contradiction. }
   apply orb_false_iff in Hfl as [Hu Hf].
   destruct (flagged w r) eqn:Hfg.
-  { exfalso. revert Hs. unfold do_end, do_end_gen. rewrite Hrun. cbv zeta. rewrite Hch, Hu, Hf, Hfg.
+  { exfalso. revert Hs. unfold do_end, do_end_gen, do_end_core. rewrite Hrun. cbv zeta. rewrite Hch, Hu, Hf, Hfg.
     unfold exec_flags_inputs_not_final. cbn [nonempty negb andb orb].
     rewrite (classify_defer false true _ _ eq_refl). cbv iota beta. rewrite mark_completed_defer.
     destruct (c_dc w + 1 <=? cap w); cbn; discriminate. }
-  revert Hs. unfold do_end, do_end_gen. rewrite Hrun. cbv zeta. rewrite Hch, Hu, Hf, Hfg.
+  revert Hs. unfold do_end, do_end_gen, do_end_core. rewrite Hrun. cbv zeta. rewrite Hch, Hu, Hf, Hfg.
   unfold exec_flags_inputs_not_final. cbn [nonempty negb andb orb].
   rewrite classify_plain. cbv iota beta.
   destruct (r_success r), ok; cbn [andb]; try (rewrite mark_completed_fail; cbn; discriminate).
@@ -1178,7 +1178,7 @@ Proof.
   - (* EAmend *)
     destruct (do_amend_book w ps) as [H1 H2]. eapply book_hist_same; eassumption.
   - (* EEnd *)
-    unfold do_end, do_end_gen. destruct (c_run w) as [r|]; cbn [fst]; [|eapply book_hist_weaken; eassumption].
+    unfold do_end, do_end_gen, do_end_core. destruct (c_run w) as [r|]; cbn [fst]; [|eapply book_hist_weaken; eassumption].
     cbv zeta.
     destruct (classify_gen _ _ _ _ _) as [[[[[hash_some wants_defer] success] ru] rf] rehash].
     destruct (mark_completed_gen _ _ _ _ _ _) as [[[[[[[st df] interrupted] dc] x1] x2] x3] x4].
